@@ -70,9 +70,8 @@ func aliasBS(w *io.BinWriter) {
 }
 
 // aliasTail is "re-read the key on top of the stack, compare with local 0".
-func aliasRecheck(w *io.BinWriter) {
-	emit.Syscall(w, interopnames.SystemStorageGetContext)
-	emit.Syscall(w, interopnames.SystemStorageGet)
+func aliasRecheck(w *io.BinWriter, local bool) {
+	sysGet(w, local)
 	emit.Bytes(w, []byte("x"))
 	emit.Opcodes(w, opcode.CAT)
 	aliasBS(w)
@@ -81,13 +80,24 @@ func aliasRecheck(w *io.BinWriter) {
 	emit.Opcodes(w, opcode.EQUAL, opcode.RET)
 }
 
+// sysGet reads the key on top of the stack, through the context-taking or
+// the context-free (Faun) flavour of the syscall.
+func sysGet(w *io.BinWriter, local bool) {
+	if local {
+		emit.Syscall(w, interopnames.SystemStorageLocalGet)
+		return
+	}
+	emit.Syscall(w, interopnames.SystemStorageGetContext)
+	emit.Syscall(w, interopnames.SystemStorageGet)
+}
+
 func jmpL(op opcode.Opcode, body []byte) []byte {
 	var off [4]byte
 	binary.LittleEndian.PutUint32(off[:], uint32(5+len(body)))
 	return append(append([]byte{byte(op)}, off[:]...), body...)
 }
 
-func aliasGet(d, m int) []byte {
+func aliasGet(d, m int, local bool) []byte {
 	body := io.NewBufBinWriter()
 	emit.Opcodes(body.BinWriter, opcode.DUP)
 	emit.Bytes(body.BinWriter, []byte("x"))
@@ -95,19 +105,18 @@ func aliasGet(d, m int) []byte {
 	aliasDerive(body.BinWriter, d)
 	aliasMutate(body.BinWriter, m)
 	emit.Opcodes(body.BinWriter, opcode.DROP, opcode.LDARG0)
-	aliasRecheck(body.BinWriter)
+	aliasRecheck(body.BinWriter, local)
 	w := io.NewBufBinWriter()
 	emit.InitSlot(w.BinWriter, 1, 1)
 	emit.Opcodes(w.BinWriter, opcode.LDARG0)
-	emit.Syscall(w.BinWriter, interopnames.SystemStorageGetContext)
-	emit.Syscall(w.BinWriter, interopnames.SystemStorageGet)
+	sysGet(w.BinWriter, local)
 	emit.Opcodes(w.BinWriter, opcode.DUP, opcode.ISNULL)
 	w.WriteBytes(jmpL(opcode.JMPIFL, body.Bytes()))
 	emit.Opcodes(w.BinWriter, opcode.DROP, opcode.PUSHT, opcode.RET)
 	return w.Bytes()
 }
 
-func aliasFind(d, m int) []byte {
+func aliasFind(d, m int, local bool) []byte {
 	body := io.NewBufBinWriter()
 	emit.Syscall(body.BinWriter, interopnames.SystemIteratorValue)
 	emit.Opcodes(body.BinWriter, opcode.DUP, opcode.PUSH0, opcode.PICKITEM, opcode.STLOC1, opcode.PUSH1, opcode.PICKITEM)
@@ -117,12 +126,16 @@ func aliasFind(d, m int) []byte {
 	aliasDerive(body.BinWriter, d)
 	aliasMutate(body.BinWriter, m)
 	emit.Opcodes(body.BinWriter, opcode.DROP, opcode.LDLOC1)
-	aliasRecheck(body.BinWriter)
+	aliasRecheck(body.BinWriter, local)
 	w := io.NewBufBinWriter()
 	emit.InitSlot(w.BinWriter, 2, 1)
 	emit.Opcodes(w.BinWriter, opcode.PUSH0, opcode.LDARG0)
-	emit.Syscall(w.BinWriter, interopnames.SystemStorageGetContext)
-	emit.Syscall(w.BinWriter, interopnames.SystemStorageFind)
+	if local {
+		emit.Syscall(w.BinWriter, interopnames.SystemStorageLocalFind)
+	} else {
+		emit.Syscall(w.BinWriter, interopnames.SystemStorageGetContext)
+		emit.Syscall(w.BinWriter, interopnames.SystemStorageFind)
+	}
 	emit.Opcodes(w.BinWriter, opcode.DUP)
 	emit.Syscall(w.BinWriter, interopnames.SystemIteratorNext)
 	// JMPIF over the "nothing found" exit
@@ -132,18 +145,21 @@ func aliasFind(d, m int) []byte {
 	return w.Bytes()
 }
 
-func aliasPut(m int) []byte {
+func aliasPut(m int, local bool) []byte {
 	w := io.NewBufBinWriter()
 	emit.InitSlot(w.BinWriter, 0, 2)
 	emit.Opcodes(w.BinWriter, opcode.LDARG1)
 	emit.Instruction(w.BinWriter, opcode.CONVERT, []byte{byte(stackitem.BufferT)})
 	emit.Opcodes(w.BinWriter, opcode.DUP, opcode.LDARG0)
-	emit.Syscall(w.BinWriter, interopnames.SystemStorageGetContext)
-	emit.Syscall(w.BinWriter, interopnames.SystemStoragePut)
+	if local {
+		emit.Syscall(w.BinWriter, interopnames.SystemStorageLocalPut)
+	} else {
+		emit.Syscall(w.BinWriter, interopnames.SystemStorageGetContext)
+		emit.Syscall(w.BinWriter, interopnames.SystemStoragePut)
+	}
 	aliasMutate(w.BinWriter, m)
 	emit.Opcodes(w.BinWriter, opcode.DROP, opcode.LDARG0)
-	emit.Syscall(w.BinWriter, interopnames.SystemStorageGetContext)
-	emit.Syscall(w.BinWriter, interopnames.SystemStorageGet)
+	sysGet(w.BinWriter, local)
 	aliasBS(w.BinWriter)
 	emit.Opcodes(w.BinWriter, opcode.LDARG1)
 	aliasBS(w.BinWriter)
@@ -152,9 +168,22 @@ func aliasPut(m int) []byte {
 }
 
 // AliasGetName etc. name the probe methods.
-func AliasGetName(d, m int) string  { return fmt.Sprintf("probeGet%d%d", d, m) }
-func AliasFindName(d, m int) string { return fmt.Sprintf("probeFind%d%d", d, m) }
-func AliasPutName(m int) string     { return fmt.Sprintf("probePut%d", m) }
+// (local: the context-free System.Storage.Local.* syscalls, active from Faun;
+// before that these probes fault on every node alike).
+func AliasGetName(d, m int, local bool) string {
+	return fmt.Sprintf("probe%sGet%d%d", lcl(local), d, m)
+}
+func AliasFindName(d, m int, local bool) string {
+	return fmt.Sprintf("probe%sFind%d%d", lcl(local), d, m)
+}
+func AliasPutName(m int, local bool) string { return fmt.Sprintf("probe%sPut%d", lcl(local), m) }
+
+func lcl(local bool) string {
+	if local {
+		return "Local"
+	}
+	return ""
+}
 
 // appendAliasProbes adds the probe methods to a compiled contract.
 func appendAliasProbes(c *neotest.Contract) {
@@ -169,14 +198,16 @@ func appendAliasProbes(c *neotest.Contract) {
 		m.ABI.Methods = append(m.ABI.Methods, md)
 		script = append(script, code...)
 	}
-	for d := 0; d < AliasDerives; d++ {
-		for mu := 0; mu < AliasMutators; mu++ {
-			add(AliasGetName(d, mu), aliasGet(d, mu), "key")
-			add(AliasFindName(d, mu), aliasFind(d, mu), "prefix")
+	for _, local := range []bool{false, true} {
+		for d := 0; d < AliasDerives; d++ {
+			for mu := 0; mu < AliasMutators; mu++ {
+				add(AliasGetName(d, mu, local), aliasGet(d, mu, local), "key")
+				add(AliasFindName(d, mu, local), aliasFind(d, mu, local), "prefix")
+			}
 		}
-	}
-	for mu := 0; mu < AliasMutators; mu++ {
-		add(AliasPutName(mu), aliasPut(mu), "key", "value")
+		for mu := 0; mu < AliasMutators; mu++ {
+			add(AliasPutName(mu, local), aliasPut(mu, local), "key", "value")
+		}
 	}
 	nf := *c.NEF
 	nf.Script = script
